@@ -227,6 +227,9 @@ def reshape_numer(self, shape, classes=(), recursive=True):
     obj = Qube(new_values, self._mask_, nrank=len(shape), example=self)
     obj = obj.cast(classes)
     obj._readonly_ = self._readonly_
+    if obj._readonly_:              # NumPy may have returned a copy
+        Qube._array_to_readonly(obj._values_)
+        Qube._array_to_readonly(obj._mask_)
 
     # Reshape the derivatives if necessary
     if recursive:
@@ -317,6 +320,9 @@ def reshape_denom(self, shape):
     obj = Qube.__new__(type(self))
     obj.__init__(new_values, self._mask_, drank=len(shape), example=self)
     obj._readonly_ = self._readonly_
+    if obj._readonly_:              # NumPy may have returned a copy
+        Qube._array_to_readonly(obj._values_)
+        Qube._array_to_readonly(obj._mask_)
 
     return obj
 
